@@ -317,10 +317,86 @@ def gen_body(out):
                coq_str(lit(module_assign(tree, 'MULTIPART_BOUNDARY_PATT').args[0])))
 
 
+def gen_errtexts(out):
+    """the texts of the errors the framework itself creates (status code, body) and of the last-resort page"""
+    tree, _ = parse('ombott/ombott.py')
+    cls = find_class(tree, 'Ombott')
+    rows = []
+    prefix = None
+    for fname in ('_handle', '_cast', 'handler'):
+        fn = find_func(cls, fname)
+        for n in ast.walk(fn):
+            if isinstance(n, ast.Call) and ast.unparse(n.func) == 'HTTPError' and len(n.args) >= 2:
+                code, body = n.args[0], n.args[1]
+                if isinstance(code, ast.Constant) and isinstance(code.value, int):
+                    if isinstance(body, ast.Constant) and isinstance(body.value, str):
+                        rows.append((fname, code.value, body.value))
+                    elif isinstance(body, ast.JoinedStr):
+                        lit0 = body.values[0]
+                        if not (isinstance(lit0, ast.Constant) and len(body.values) == 2
+                                and ast.unparse(body.values[1].value) == 'type(first)'):
+                            raise Shape('%s: unexpected f-string error body %s' % (fname, ast.unparse(body)))
+                        prefix = (code.value, lit0.value)
+                    else:
+                        raise Shape('%s: HTTPError body is neither a literal nor the known f-string: %s'
+                                    % (fname, ast.unparse(body)))
+    if prefix is None:
+        raise Shape('_cast: unsupported-type error not found')
+    rtree, _ = parse('ombott/router/radirouter.py')
+    res = find_func(find_class(rtree, 'RadiRouter'), 'resolve')
+    for n in ast.walk(res):
+        if isinstance(n, ast.List) and len(n.elts) == 3 and isinstance(n.elts[0], ast.Constant) \
+                and isinstance(n.elts[0].value, int) and isinstance(n.elts[1], ast.Constant):
+            rows.append(('resolve', n.elts[0].value, n.elts[1].value))
+    if not any(r[1] == 404 for r in rows) or not any(r[1] == 405 for r in rows):
+        raise Shape('resolve: 404/405 triples not found')
+    out.append('(* errors the framework creates itself: (where, status code, body text) *)')
+    out.append('Definition framework_errors : list (list N * (Z * list N)) := %s.' %
+               coq_list('(%s, (%d%%Z, %s))' % (coq_str(a), b, coq_str(c)) for a, b, c in rows))
+    out.append('Definition unsupported_type_error : Z * list N := (%d%%Z, %s).' % (prefix[0], coq_str(prefix[1])))
+    # last-resort page
+    w = find_func(cls, 'wsgi')
+    src = ast.unparse(w)
+    strs = [n.value for n in ast.walk(w) if isinstance(n, ast.Constant) and isinstance(n.value, str)]
+    crit = [x for x in strs if 'Critical error' in x]
+    dbg = [x for x in strs if '<h2>Error:</h2>' in x]
+    st = [x for x in strs if x.startswith('500 ')]
+    if len(crit) != 1 or len(dbg) != 1 or len(st) != 1:
+        raise Shape('wsgi: last-resort page texts not found')
+    if "html_escape(environ.get('PATH_INFO', '/'))" not in src:
+        raise Shape('wsgi: last-resort page does not escape PATH_INFO the expected way')
+    out.append('Definition critical_page_fmt : list N := %s.' % coq_str(crit[0]))
+    out.append('Definition critical_debug_fmt : list N := %s.' % coq_str(dbg[0]))
+    out.append('Definition critical_status_line : list N := %s.' % coq_str(st[0]))
+    hdrs = [n for n in ast.walk(w) if isinstance(n, ast.Assign) and ast.unparse(n.targets[0]) == 'headers']
+    if len(hdrs) != 1:
+        raise Shape('wsgi: last-resort headers')
+    hv = lit(hdrs[0].value)
+    out.append('Definition critical_headers : list (list N * list N) := %s.' %
+               coq_list('(%s, %s)' % (coq_str(a), coq_str(b)) for a, b in hv))
+    # the JSON branch of default_error_handler
+    d = find_func(cls, 'default_error_handler')
+    dsrc = ast.unparse(d)
+    out.append('Definition json_error_content_type : list N := %s.' %
+               coq_str('application/json' if "['Content-Type'] = 'application/json'" in dsrc else ''))
+    keys = []
+    for n in ast.walk(d):
+        if isinstance(n, ast.Call) and ast.unparse(n.func) == 'dict':
+            keys = [k.arg for k in n.keywords]
+    if not keys:
+        raise Shape('default_error_handler: json dict not found')
+    out.append('Definition json_error_keys : list (list N) := %s.' % coq_list(coq_str(k) for k in keys))
+    # status lines the framework relies on (http.client.responses is CPython data: pinned here from the running interpreter)
+    import http.client
+    codes = sorted({r[1] for r in rows} | {prefix[0], 413, 400})
+    out.append('Definition status_lines : list (Z * list N) := %s.' %
+               coq_list('(%d%%Z, %s)' % (c, coq_str('%d %s' % (c, http.client.responses[c]))) for c in codes))
+
+
 def generate():
-    out = ['(* GENERATED by tools/gen_constants.py from %s — do not edit *)' % REPO,
+    out = ['(* GENERATED by tools/gen_constants.py from the current working tree of the repository - do not edit *)',
            'From Coq Require Import List ZArith NArith.', 'Import ListNotations.', '']
-    for g in (gen_response, gen_ombott, gen_helpers, gen_errpage, gen_router, gen_body):
+    for g in (gen_response, gen_ombott, gen_helpers, gen_errpage, gen_router, gen_body, gen_errtexts):
         g(out)
         out.append('')
     return '\n'.join(out)
